@@ -1916,3 +1916,33 @@ Proof.
   - apply (R_inv2 _ _ _ _ HR).
   - unfold sched_ok. apply forallb_forall. reflexivity.
 Qed.
+
+(* ---------- every run ends, and ends with every program finished (existence form) ---------- *)
+From GV Require Import Progress.
+
+Lemma tstep_choice t c g l : tstep t c g l = tstep t 0 g l.
+Proof. reflexivity. Qed.
+Lemma settled_quiescent (s : sysD) : settled glob loc tstep any_choice s -> quiescentD s.
+Proof. intros H t c _. apply H. reflexivity. Qed.
+Lemma pick_move (s : sysD) : (exists t c, any_choice c = true /\ enabledD s t c) \/ settled glob loc tstep any_choice s.
+Proof.
+  destruct (enabled_choice_dec glob loc tstep s 0) as [[t He]|Hn].
+  - left. exists t, 0%nat. split; [reflexivity|exact He].
+  - right. intros t c _ [l [r [Hl Hs]]]. apply (Hn t). exists l, r. split; [exact Hl|].
+    rewrite <- Hs. symmetry. apply tstep_choice.
+Qed.
+(* from every reachable state - whatever the throw plan, also from the middle of a copy loop or an exception
+   path - there is a schedule of at most mu(s) steps after which every thread has finished its program *)
+Lemma eventually_finishes ns pl progs s : R ns pl progs s ->
+  exists sc, sched_ok any_choice sc /\ (length sc <= mu (getfs progs) s)%nat /\
+             all_fin glob loc fin (runD s sc) = true.
+Proof.
+  intros HR.
+  destruct (settles glob loc tstep (mu (getfs progs)) (Inv2 (getfs progs)) (Inv2_step _) any_choice
+              (fun s0 t c => mu_dec (getfs progs) s0 t c) pick_move s (R_inv2 _ _ _ _ HR))
+    as [sc [Hok [Hlen Hset]]].
+  exists sc. repeat split; auto.
+  apply (quiescent_all_fin ns pl progs).
+  - destruct HR as [sc0 ->]. exists (sc0 ++ sc). symmetry. apply run_app.
+  - apply settled_quiescent. exact Hset.
+Qed.
